@@ -216,6 +216,9 @@ class Theory:
     def raise_opaque(self, st, fr, v):
         self._no("raise of an opaque object")
 
+    def empty_dict(self, st, fr, hint):
+        return [(st, KwV({}))]
+
     def empty_list(self, st, fr, hint):
         return [(st, SeqV(0, [fresh("lst", z3.ArraySort(I, I))], IntL(), mutable=True))]
 
